@@ -55,3 +55,17 @@ def fromLE : Bytes → Nat
   | b :: bs => b.toNat + 256 * fromLE bs
 
 end Pyc
+
+namespace Pyc
+
+/-- stable insertion sort by structural recursion (kernel-reducible, unlike `List.mergeSort`; same result as any
+stable sort such as Python's `sorted`) -/
+def insertBy {α : Type} (le : α → α → Bool) (a : α) : List α → List α
+  | [] => [a]
+  | b :: l => if le a b then a :: b :: l else b :: insertBy le a l
+
+def isort {α : Type} (le : α → α → Bool) : List α → List α
+  | [] => []
+  | a :: l => insertBy le a (isort le l)
+
+end Pyc
